@@ -361,6 +361,8 @@ class Program:
                         m = Module(name, path, rel, src)
                 except SyntaxError as e:
                     raise AnalysisError("shipped file does not parse: %s: %s" % (rel, e))
+                from .inline import inline_new_helpers
+                m.inlined = inline_new_helpers(m.tree, name)
                 _inline_temporaries(m.tree)
                 _mark_elifs(m.tree)
                 _Canon().visit(m.tree)
